@@ -376,3 +376,32 @@ package larking
 //@   loop 1 step [starstar] v.toks[rangeindex].typ == tokenStarStar ==> prev(i) <= i && (i == len(toks) || toks[i].typ == tokenVerb)
 //@        && (forall x :: {at(toks, x).typ} off(toks) + prev(i) <= x && x < off(toks) + i ==> at(toks, x).typ != tokenVerb)
 //@   loop 1 decreases len(v.toks) - rangeindex
+
+// Routing trie. gf(x, "depth") is a ghost field: the number of variable edges
+// between the root and a node (for a variable: the depth of the node it hangs
+// off). TrieWf is the object invariant of the trie that addRule builds; the
+// matcher assumes it (establishing it in addRule is a separate obligation set).
+//@ spec TrieWf() = (forall r :: {ptr(r, "variable").next} r > 0 ==> VarWf(ptr(r, "variable")) && ptr(r, "variable").next != nil
+//@            && gf(ptr(r, "variable").next, "depth") == gf(r, "depth") + 1)
+//@      && (forall r, x :: {at(ptr(r, "path").variables, x)} r > 0 && off(ptr(r, "path").variables) <= x
+//@            && x < off(ptr(r, "path").variables) + len(ptr(r, "path").variables)
+//@            ==> at(ptr(r, "path").variables, x) != nil && gf(at(ptr(r, "path").variables, x), "depth") == gf(r, "depth"))
+//@      && (forall r :: {gf(r, "depth")} gf(r, "depth") >= 0)
+
+//@ func parseParam trusted pure
+//@ func (tokens).String trusted pure
+
+//@ func (*path).search serves C01 C02 C09
+//@   returns (m, ps, err)
+//@   requires p != nil && TrieWf()
+//@   requires len(toks) == 0 || (Shape(toks) && toks[0].typ != tokenPath)
+//@   modifies E$param
+//@   witness verifWitnessRouting
+//@   decreases len(toks)
+//@   assume at "return m, nil, nil" m != nil && len(m.vars) == gf(p, "depth")
+//@   assume at "return m, nil, nil" #2 len(m#2.vars) == gf(p, "depth")
+//@   assume at "if m, ps, err := next.search(toks[2:], verb); err == nil {" next != nil && gf(next, "depth") == gf(p, "depth")
+//@   assert at "l := v.index(toks[1:]) + 1" [slash-guard C01] toks[0].typ == tokenSlash
+//@   ensures [found] err == nil ==> m != nil && len(m.vars) == gf(p, "depth") + len(ps)
+//@   loop 1 invariant -1 <= rangeindex && rangeindex < len(p.variables)
+//@   loop 1 decreases len(p.variables) - rangeindex
